@@ -1423,3 +1423,196 @@ def t_treewalk_all(facts, res, tier):
     if n == 0:
         raise AnchorMissing("no arm taking the children of a grammar rule with a fixed number of next() calls found")
     res.note("%d (walker arm, grammar rule) pairs with a fixed number of children taken" % n)
+
+
+# ----------------------------------------------------------------------------- C01 (an operator is lowered as itself)
+
+
+def _op_variants(node):
+    """Operation::V(..) variant names constructed or named in an expression / pattern text."""
+    return set(re.findall(r"Operation::(\w+)", expr_text(node) if isinstance(node, dict) and "k" in node and node.get("k") not in ("tstruct", "or", "path", "ident", "wild", "lit", "struct", "tuple", "ref") else pat_text(node)))
+
+
+@rule("T-OP-IDENTITY", floor=8,
+      text="in the operator dispatch of generate_expr (the match on the `Operation` of a binary expression) every arm hands the two-operand generators "
+           "(generate_arithm, generate_shift, generate_shift_16bits) the operation it matched - the binding `op` itself - or an `Operation` its own "
+           "pattern names.  An arm that constructs another operation re-interprets the operator: `x / 2` lowered as an arithmetic shift rounds toward "
+           "minus infinity where C truncates toward zero, so an operator the 6502 cannot do is no longer refused but given a different meaning")
+def t_op_identity(facts, res, tier):
+    from scopes import scoped
+    fn = facts.fn("generate_expr", genmodel.GEN_QUAL)
+    n = 0
+    for node, env, doms in scoped(fn):
+        if not _self_call(node, ("generate_arithm", "generate_shift", "generate_shift_16bits")) or len(node.get("args", [])) < 3:
+            continue
+        # the innermost enclosing arm of a match on an Operation
+        arm = None
+        for d in doms:
+            if d[0] == "arm" and "Operation::" in pat_text(d[2]):
+                arm = d
+        if arm is None:
+            continue
+        n += 1
+        own = set(re.findall(r"Operation::(\w+)", pat_text(arm[2])))
+        opa = node["args"][1]
+        key = "T-OP-IDENTITY:%s:%s" % (node["method"], "|".join(sorted(own))[:40])
+        # what operation is passed?
+        passed = None
+        e = opa
+        while isinstance(e, dict) and e.get("k") in ("ref", "paren") or (isinstance(e, dict) and e.get("k") == "unary" and e.get("op") in ("&", "*")):
+            e = e["e"]
+        if isinstance(e, dict) and e.get("k") == "path" and len(e["segs"]) == 1:
+            b = env.get(e["segs"][0])
+            if b is not None and b.src == "pat":
+                passed = "the matched operation"          # bound by the BinOp pattern
+            elif b is not None and b.src == "let" and b.init is not None:
+                vs = set(re.findall(r"Operation::(\w+)", expr_text(b.init)))
+                passed = vs or {"?"}
+            elif b is not None and b.src == "param":
+                passed = "the matched operation"
+        elif isinstance(e, dict):
+            passed = set(re.findall(r"Operation::(\w+)", expr_text(e))) or {"?"}
+        res.inst(key, True, {"call": node["method"], "arm": sorted(own), "operation_passed": passed if isinstance(passed, str) else sorted(passed or [])})
+        if isinstance(passed, set) and not passed <= own:
+            res.fail(key, facts.where(fn, node), "generate_expr, arm %s: %s is given the operation %s, which the arm did not match: the operator is lowered as another one" % (
+                sorted(own), node["method"], sorted(passed - own)))
+    if n == 0:
+        raise AnchorMissing("generate_expr: no two-operand generator call under an Operation arm found")
+
+
+# ----------------------------------------------------------------------------- C07 / C08 (the name a directive looks up)
+
+
+def _value_spine_trims(e):
+    """Is the value of this expression the result of a trim (directly, or through map/and_then closures)?  A trim inside a predicate
+    (`filter(|s| !s.trim().is_empty())`) tests the text and leaves it as it was."""
+    while isinstance(e, dict) and e.get("k") in ("try", "paren", "ref"):
+        e = e["e"]
+    if not isinstance(e, dict):
+        return False
+    if e.get("k") == "mcall":
+        m = e["method"]
+        if m in ("trim", "split_whitespace"):
+            return True
+        if m == "split" and e.get("args") and "is_whitespace" in expr_text(e["args"][0]):
+            return True
+        if m in ("map", "and_then", "map_or", "map_or_else", "then", "then_some"):
+            for a in e.get("args", []):
+                if a.get("k") == "closure" and _value_spine_trims(a["body"]):
+                    return True
+        return _value_spine_trims(e["recv"])
+    if e.get("k") == "block":
+        st = e.get("stmts") or []
+        return bool(st) and _value_spine_trims(st[-1])
+    if e.get("k") == "if":
+        return _value_spine_trims(e["then"]) and (e.get("else") is None or _value_spine_trims(e["else"]))
+    if e.get("k") == "call" and expr_text(e["func"]).split("::")[-1] in ("Some", "Ok") and e.get("args"):
+        return _value_spine_trims(e["args"][0])
+    return False
+
+
+@rule("T-CPP-NAME-TRIM", floor=4,
+      text="the macro name a directive looks up (`#ifdef`, `#ifndef`, `#undef`: the argument of get_macro / undefine in process()) is the rest of the "
+           "line after the directive word with the white space around it removed: on the way from `parts.next()` to the lookup there is a trim() (or the "
+           "name is a capture group of a regex, which cannot hold blanks).  `splitn(2, ' ')` leaves every further blank of `#ifdef  PAL` in front of the "
+           "name, the lookup of \\\" PAL\\\" fails, and the wrong branch is selected")
+def t_cpp_name_trim(facts, res, tier):
+    from scopes import scoped
+    fn = facts.fn("process", "")
+    if not fn["file"].endswith("cpp.rs"):
+        raise AnchorMissing("process() of cpp.rs not found")
+    n = 0
+    for node, env, doms in scoped(fn):
+        if not (node.get("k") == "mcall" and node["method"] in ("get_macro", "undefine", "contains_key") and node.get("args")):
+            continue
+        if node["method"] == "contains_key" and "defs" not in expr_text(node["recv"]):
+            continue
+        a = node["args"][0]
+        while isinstance(a, dict) and a.get("k") in ("ref", "paren") or (isinstance(a, dict) and a.get("k") == "unary" and a.get("op") in ("&", "*")):
+            a = a["e"]
+        if not (isinstance(a, dict) and a.get("k") == "path" and len(a["segs"]) == 1):
+            continue
+        name = a["segs"][0]
+        n += 1
+        # follow the binding chain
+        seen = set()
+        cur = [name]
+        how = None
+        steps = []
+        while cur and how is None and len(seen) < 12:
+            nm = cur.pop()
+            if nm in seen:
+                continue
+            seen.add(nm)
+            b = env.get(nm)
+            if b is None:
+                continue
+            src = b.init if b.init is not None else b.scrut
+            if src is None:
+                continue
+            t = expr_text(src).replace(" ", "")
+            steps.append("%s <- %s" % (nm, t[:50]))
+            if _value_spine_trims(src):
+                how = "trimmed"
+            elif re.search(r"&?\w+\[\d+\]", t) and any(env.get(x) is not None and env[x].init is not None and ".captures(" in expr_text(env[x].init) for x in re.findall(r"\b(\w+)\[", t)):
+                how = "capture group"
+            elif re.search(r"\.splitn\(|\.split\(|\.split_once\(", t):
+                # this is where the operand is cut off the directive: a trim further upstream is a trim of the whole line
+                pass
+            else:
+                cur += [x["segs"][0] for x in walk(src) if x.get("k") == "path" and len(x["segs"]) == 1]
+        key = "T-CPP-NAME-TRIM:%s:%s" % (node["method"], name)
+        res.inst(key, True, {"lookup": "%s(%s)" % (node["method"], name), "name_is": how, "chain": steps[:4]})
+        if how is None:
+            res.fail(key, facts.where(fn, node), "process() looks up `%s` with %s, and nothing on the way from the directive's operand to the lookup removes the white space around it (%s): `#ifdef  NAME` with two blanks looks up \" NAME\"" % (name, node["method"], "; ".join(steps[:4])))
+    if n == 0:
+        raise AnchorMissing("process(): no macro lookup found")
+
+
+@rule("T-CPP-EVAL-EXPANDED", floor=2,
+      text="the text handed to evaluate() for `#if` / `#elif` is the line after macro replacement: following the argument of every evaluate() call of "
+           "process() back through its bindings one reaches a local bound to `context.replace_all(..)` directly - not under a test of the conditional "
+           "state.  An `#elif` is evaluated while the state is Inactive (no earlier branch was taken), so a replacement done only when the state is "
+           "Active leaves its macros unexpanded and the condition fails with `Undefined identifier`")
+def t_cpp_eval_expanded(facts, res, tier):
+    from scopes import scoped
+    fn = facts.fn("process", "")
+    n = 0
+    for node, env, doms in scoped(fn):
+        if not (node.get("k") == "mcall" and node["method"] == "evaluate" and node.get("args")):
+            continue
+        a = node["args"][0]
+        names = [x["segs"][0] for x in walk(a) if x.get("k") == "path" and len(x["segs"]) == 1]
+        n += 1
+        seen = set()
+        cur = list(names)
+        verdict = None
+        steps = []
+        while cur and verdict is None and len(seen) < 16:
+            nm = cur.pop()
+            if nm in seen:
+                continue
+            seen.add(nm)
+            b = env.get(nm)
+            if b is None:
+                continue
+            src = b.init if b.init is not None else b.scrut
+            if src is None:
+                continue
+            e = src
+            while isinstance(e, dict) and e.get("k") in ("try", "paren", "ref"):
+                e = e["e"]
+            t = expr_text(src).replace(" ", "")
+            steps.append("%s <- %s" % (nm, t[:40]))
+            if isinstance(e, dict) and e.get("k") == "mcall" and e["method"] == "replace_all":
+                verdict = "expanded"
+            elif "replace_all(" in t:
+                verdict = "conditional: %s" % t[:70]
+            else:
+                cur += [x["segs"][0] for x in walk(src) if x.get("k") == "path" and len(x["segs"]) == 1]
+        key = "T-CPP-EVAL-EXPANDED:%d" % n
+        res.inst(key, True, {"argument": expr_text(a)[:30], "text_is": verdict, "chain": steps[:5]})
+        if verdict != "expanded":
+            res.fail("T-CPP-EVAL-EXPANDED", facts.where(fn, node), "process() evaluates a condition whose text is %s: an #elif reached in state Inactive sees its macros unexpanded" % (verdict or "not the result of replace_all (%s)" % "; ".join(steps[:4])))
+    if n == 0:
+        raise AnchorMissing("process(): no evaluate() call found")
